@@ -76,9 +76,3 @@ func VerifPrintFieldStyle(name string, number int32, elem protoreflect.Descripto
 	err := fb.printFieldStyle(name, number, elem)
 	return fb.out.out.String(), err
 }
-
-// VerifParseOption exposes the simplification + walk of one option.
-func VerifParseOption(opt *optionreflect.OptionDefinition) (qualifiedName string, root optionreflect.OptionField, inlineString *string) {
-	p := parseOption(opt)
-	return p.qualifiedName, p.root, p.inlineString
-}
